@@ -15,7 +15,15 @@ R3  Real multi-process executions (fork): generated kernels around and above the
     seeded delays in the worker wrapper, with timeout -1 and with the poll loop; event logs and
     results validated by Trace_LCDSearch against an untimed reference of the same kernel and the
     sequential search.  The CLI is run repeatedly (and with different worker counts): reports must
-    be byte-identical apart from the Timestamp line."""
+    be byte-identical apart from the Timestamp line.
+Partition sweep  MC_Partition: LCDSearch!Slice covers every root exactly once for every kernel
+    length <= 160 (300) and worker count <= 72 (130) (negative control: the floor chunk size loses
+    roots).  The real coordinator then runs, with virtual worker processes, on kernels of 50..140
+    lines in which up to 46 lines - the first and last lines, the slice boundaries of the
+    specification's partition and of the floor partition, random others - are one-instruction
+    loop-carried cycles and every other line carries no dependency, for seeded (length, worker
+    count) pairs with 1..70 workers; Trace_Partition: reported cycles = sequential result = the
+    cycles by construction (Level A), slices = Slice (Level B)."""
 import json
 import multiprocessing
 import os
@@ -121,6 +129,147 @@ def real_job(spec):
         out["meta"][cid] = {"class": cls, "text": text, "arch": spec["arch"], "nw": nw, "timeout": to, "wall": round(o["wall"], 3),
                             "interleaved": len(set(e["w"] for e in o["raw"] if e["k"] == "app_begin" and e["n"] > 0))}
     return out
+
+
+def _sweep_kernel(k, nw, rnd):
+    W = (k - 1) // nw + 1
+    F = max(1, k // nw)
+    pts = {1, 2, k}
+    for chunk in (W, F):
+        for w in range(nw + 1):
+            for x in (w * chunk, w * chunk + 1):
+                if 1 <= x <= k:
+                    pts.add(x)
+    tail = set(range(max(1, k - 7), k + 1))
+    keep = set(sorted(tail)[-6:]) | {1, k}
+    rest = sorted(pts - keep)
+    room = len(lc.REGS) - len(keep)
+    if len(rest) > room - 4:
+        rest = rnd.sample(rest, room - 4)
+    keep |= set(rest)
+    others = [i for i in range(1, k + 1) if i not in keep]
+    keep |= set(rnd.sample(others, min(len(others), len(lc.REGS) - len(keep))))
+    cyc = sorted(keep)
+    reg = {p: lc.REGS[i] for i, p in enumerate(cyc)}
+    lines = ["s1l1 %%%s, %%%s" % (reg[i], reg[i]) if i in reg else "# filler %d" % i for i in range(1, k + 1)]
+    return cyc, "\n".join(lines) + "\n"
+
+
+def sweep_job(job):
+    """(k, nw) pairs on the real coordinator with virtual worker processes"""
+    from harness import vproc
+
+    tools = lc.synthetic_env()
+    out = {"name": "sweep-%d" % job["idx"], "cases": [], "fails": [], "texts": {}}
+    for k, nw in job["pairs"]:
+        rnd = random.Random("%d|%d|%d" % (job["seed"], k, nw))
+        cyc, text = _sweep_kernel(k, nw, rnd)
+        cid = "sweep:k%d:nw%d" % (k, nw)
+        out["texts"][cid] = text
+        try:
+            kernel = lc.analyse_text(text, tools)
+            if len(kernel) != k:
+                out["machinery"] = "sweep kernel of %d lines parsed to %d lines" % (k, len(kernel))
+                return out
+            pos = lc.positions(kernel)
+            seq = lc.sequential_result(kernel, tools)
+            with vproc.Replay(kernel, tools, nw, False, threshold=1) as rp:
+                rp.freerun()
+                err = rp.c.error
+                if err is not None and not isinstance(err, vproc.SchedError):
+                    out["fails"].append(("exception:vproc:%s" % cid, "%s: %s" % (type(err).__name__, err), {"text": text, "nw": nw}))
+                    continue
+                if err is not None or rp.dg is None:
+                    out["cases"].append({"id": cid, "skip": "scheduler: %s" % err})
+                    continue
+                res, _ = lc.project_lcds(rp.dg.get_loopcarried_dependencies(), kernel)
+                slices = [[pos.get(r, 0) for r in p.roots] for p in rp.f.procs]
+                if not any(slices) or any(0 in sl for sl in slices):
+                    slices = []     # the code does not hand lists of kernel lines to its workers (any more)
+            out["cases"].append({"id": cid, "k": k, "nw": nw, "cyc": cyc,
+                                 "found": [x["key"][0] if len(x["key"]) == 1 else 0 for x in res],
+                                 "seq": [x["key"][0] if len(x["key"]) == 1 else 0 for x in seq["result"]],
+                                 "slices": slices})
+        except Exception as e:  # noqa
+            import traceback
+
+            out["fails"].append(("exception:vproc:%s" % cid, "%s: %s" % (type(e).__name__, e),
+                                 {"text": text, "nw": nw, "trace": traceback.format_exc()[-1500:]}))
+    return out
+
+
+def partition_sweep(run, tier, seed):
+    quick = tier == "quick"
+    r = tlc.run_tlc("MC_Partition", "MC_Partition_quick" if quick else "MC_Partition", workers=16, timeout=1500)
+    run.add_mc(r, "MC_Partition" + ("_quick" if quick else ""))
+    if not quick:
+        r = tlc.run_tlc("MC_Partition", "MC_Partition_floor", workers=16, timeout=1500, allow_violation=True)
+        run.add_mc(r, "MC_Partition_floor (expected: FloorCovers violated)")
+        if "FloorCovers" not in r.violated:
+            raise tlc.TLCError("model self-test failed: the floor chunk size is reported to cover every root")
+    rnd = random.Random(seed * 977 + 5)
+    pairs = set()
+    # divisible and non-divisible lengths, fewer and more workers than lines, the usual core counts
+    for nw in (1, 2, 3, 4, 6, 7, 8, 12, 16, 24, 32, 48, 64):
+        for k in (50, 51, 63, 64, 65):
+            pairs.add((k, nw))
+    want = 170 if quick else 2600
+    while len(pairs) < want:
+        pairs.add((rnd.randint(50, 140 if not quick else 110), rnd.choice([rnd.randint(1, 70), rnd.randint(2, 20), rnd.choice([8, 16, 32])])))
+    pairs = sorted(pairs)
+    rnd.shuffle(pairs)
+    njobs = 12
+    jobs = [{"idx": i, "seed": seed, "pairs": pairs[i::njobs]} for i in range(njobs)]
+    lc.synthetic_env()
+    outs = lc.pool_map(sweep_job, jobs, 12, deadline=300.0 if quick else 1500.0)
+    cases, texts = [], {}
+    for o in outs:
+        if o.get("hang"):
+            run.fail("C16:no-return:vproc:partition-sweep", "a partition-sweep job did not return (job killed)", {"job": o["item"]})
+            continue
+        if o.get("machinery"):
+            raise tlc.TLCError(o["machinery"])
+        for sig, what, case in o["fails"]:
+            run.fail("C16:" + sig, what, case)
+        texts.update(o["texts"])
+        for c in o["cases"]:
+            if "skip" in c:
+                run.divergence("partition-sweep", {"case": c["id"], "what": c["skip"]})
+            else:
+                cases.append(c)
+    if not cases:
+        return
+    # binding self-test: a case that lost the cycle of the last line must be rejected
+    bad = dict(cases[0])
+    bad["id"] = "selftest-lost-last-root"
+    bad["found"] = [x for x in bad["found"] if x != bad["k"]]
+    rejects, rv = tlc.batch_validate("Trace_Partition", "Trace_Partition", cases + [bad], tag="c16sweep", timeout=1500)
+    run.add_mc(rv, "Trace_Partition")
+    run.add_traces(len(cases))
+    run.add_eval(len(cases))
+    got = {r[0] for r in rejects}
+    if "selftest-lost-last-root" not in got:
+        raise tlc.TLCError("binding self-test: Trace_Partition accepts a result that lacks the last root's cycle")
+    from harness import cache_common as cc
+
+    ndiv = 0
+    for v in cc.printed_tuples(rv.raw, "DIVERGE"):
+        ndiv += 1
+        if ndiv <= 5:
+            run.divergence("partition", {"case": v[1], "what": v[2], "detail": v[3:]})
+    run.note("partition_sweep", {"pairs": len(cases), "slices_visible": sum(1 for c in cases if c["slices"]),
+                                 "slice_divergences": ndiv})
+    for cid, clause, detail in rejects:
+        if cid.startswith("selftest"):
+            continue
+        c = next(x for x in cases if x["id"] == cid)
+        run.fail("C16:%s:vproc:partition-sweep:k%d:nw%d" % (clause.split(":", 1)[1], c["k"], c["nw"]),
+                 "%s on a kernel of %d lines with %d workers: cycles of the lines %s" % (clause, c["k"], c["nw"], detail),
+                 {"text": texts[cid], "nw": c["nw"], "k": c["k"], "cyc": c["cyc"], "found": c["found"], "seq": c["seq"], "kind": "partition-sweep"})
+    for c in cases:
+        if c["nw"] >= 2:
+            run.mark(["sweep", c["k"], c["nw"]])
+    run.sample({"source": "partition-sweep", "k": cases[0]["k"], "nw": cases[0]["nw"], "cycles_at": cases[0]["cyc"][:12], "slices": cases[0]["slices"][:4]})
 
 
 def cli_checks(run, tier, seed):
@@ -245,6 +394,9 @@ def main(tier, seed):
     if seen:
         run.note("c19_clauses_seen_in_c16_runs", seen[:10])
     walls["R3"] = round(time.time() - t0, 1)
+    t0 = time.time()
+    partition_sweep(run, tier, seed)
+    walls["sweep"] = round(time.time() - t0, 1)
     t0 = time.time()
     cli_checks(run, tier, seed)
     walls["cli"] = round(time.time() - t0, 1)
